@@ -23,7 +23,7 @@
  *                                       blocks in one C function; see tmpl1..tmpl4 for the shapes.
  *                                       A slot that is a plain `X k` throws lexically inside the
  *                                       template function, anything else is interpreted by run().
- * kinds: 0 TypeError 1 KeyError 2 ValueError 3 IOError 4 UserExc (a static user type object)
+ * kinds: 0 TypeError 1 KeyError 2 ValueError 3 IOError 4 UserExc 5 UserExcEOF 6 User (static user type objects, names related by prefix)
  *
  * Trace lines:
  *   begin <depth> | end <depth>         around each tree (depth = len(current(Exception)))
@@ -46,7 +46,7 @@
 #endif
 
 enum { N_SEQ, N_TRY, N_THROW, N_CALL, N_MARK, N_TMPL };
-enum { NKINDS = 5 };
+enum { NKINDS = 7 };
 
 typedef struct Node Node;
 struct Node {
@@ -60,8 +60,11 @@ struct Node {
 };
 
 static var UserExc = CelloEmpty(UserExc);
+/* user exception objects whose names are related by prefix (a filter must match the object, not a part of its name) */
+static var UserExcEOF = CelloEmpty(UserExcEOF);
+static var User = CelloEmpty(User);
 static var K[NKINDS];
-static const char* KN[NKINDS] = { "TypeError", "KeyError", "ValueError", "IOError", "UserExc" };
+static const char* KN[NKINDS] = { "TypeError", "KeyError", "ValueError", "IOError", "UserExc", "UserExcEOF", "User" };
 
 static var last_thrown = NULL;
 static int in_child = 0;
@@ -445,7 +448,7 @@ static void run_forked(Node* root) {
 /* ---- main ------------------------------------------------------------------------------ */
 int main(int argc, char** argv) {
   setvbuf(stdout, NULL, _IOLBF, 0);    /* a stuck or killed case still shows how far it got */
-  K[0] = TypeError; K[1] = KeyError; K[2] = ValueError; K[3] = IOError; K[4] = UserExc;
+  K[0] = TypeError; K[1] = KeyError; K[2] = ValueError; K[3] = IOError; K[4] = UserExc; K[5] = UserExcEOF; K[6] = User;
   if (EXIT_FAILURE isnt 1) { harness_bug("EXIT_FAILURE is not 1 on this platform"); }
   while (true) {
     char* line = rd_line();
